@@ -254,10 +254,10 @@ namespace Feat
 
 /-! ### construction: `Machine.add_states` → `_create_state(**definition)` → `Error.__init__` → `Tags.__init__`
 
-`Error.__init__` does `tags = kwargs.get('tags', []); if accepted: tags.append('accepted'); kwargs['tags'] = tags`
-and `Tags.__init__` keeps `self.tags = kwargs.pop('tags', [])`: when the caller passed a list object, that
-very object is appended to and kept — it is not copied.  So list objects are modelled as references into a
-heap of the caller's lists. -/
+`Error.__init__` (repaired, /repo 3389265): `if accepted: kwargs['tags'] = list(kwargs.get('tags', [])) + ['accepted']`
+— a *new* list; `Tags.__init__` keeps `self.tags = kwargs.pop('tags', [])`.  The caller's list objects are
+modelled as references into a heap so that definitions which share one `tags=` list object can be expressed:
+construction reads them and never writes them. -/
 
 /-- a state definition as the caller writes it -/
 structure SDef where
@@ -268,27 +268,22 @@ structure SDef where
   retries : Nat := 0
   deriving Repr, DecidableEq
 
-def hset (h : Nat → List Nat) (r : Nat) (v : List Nat) : Nat → List Nat := fun x => if x = r then v else h x
-
-/-- the caller's list objects after all states have been constructed, in definition order -/
+/-- the caller's list objects after all states have been constructed, in definition order:
+no `__init__` writes to them -/
 def initHeap : List SDef → (Nat → List Nat) → (Nat → List Nat)
   | [], h => h
-  | d :: r, h =>
-    match d.tagsRef with
-    | some ref => initHeap r (if d.accepted then hset h ref (h ref ++ [0]) else h)
-    | none => initHeap r h
-
-/-- `state.tags` once the machine is built -/
-def builtTags (defs : List SDef) (heap : Nat → List Nat) (d : SDef) : List Nat :=
-  match d.tagsRef with
-  | some ref => initHeap defs heap ref
-  | none => if d.accepted then [0] else []
+  | _ :: r, h => initHeap r h
 
 /-- the tags the definition gives the state -/
 def givenTags (heap : Nat → List Nat) (d : SDef) : List Nat :=
   match d.tagsRef with
   | some ref => heap ref
   | none => []
+
+/-- `state.tags` once the machine is built: the caller's object as it is then (not accepted), or a copy of
+it with 'accepted' appended -/
+def builtTags (defs : List SDef) (heap : Nat → List Nat) (d : SDef) : List Nat :=
+  if d.accepted then givenTags (initHeap defs heap) d ++ [0] else givenTags (initHeap defs heap) d
 
 /-- post-construction feature arguments (what `Cfg.args` holds) -/
 def builtArgs (defs : List SDef) (heap : Nat → List Nat) (s : Nat) : SArgs :=
@@ -297,15 +292,10 @@ def builtArgs (defs : List SDef) (heap : Nat → List Nat) (s : Nat) : SArgs :=
   | none => {}
 
 /-- C19's tag clause on the built machine, full strength: every state answers `is_<t>` True exactly for
-the tags its definition gives it (+ 'accepted' when it is declared accepted). -/
+the tags its definition gives it (+ 'accepted' when it is declared accepted) — whatever list objects the
+definitions share. -/
 def TagsExact (defs : List SDef) (heap : Nat → List Nat) : Prop :=
   ∀ d ∈ defs, ∀ t, t ∈ builtTags defs heap d ↔ (t ∈ givenTags heap d ∨ (t = 0 ∧ d.accepted = true))
-
-/-- exclusion of the known finding: no state shares its `tags=` list object with a state declared
-accepted unless it is declared accepted itself -/
-def NoSharedAccepted (defs : List SDef) : Prop :=
-  ∀ d ∈ defs, ∀ d' ∈ defs, d.tagsRef.isSome = true → d.tagsRef = d'.tagsRef → d'.accepted = true →
-    d.accepted = true
 
 end Feat
 end TM
